@@ -450,3 +450,18 @@ def fam_event_flood(rng, n, tag="flood"):
         s.at(1, "diverge", 2, rng.randrange(3, 40))
         out.append(s)
     return out
+
+def fam_paused_spectator(rng, n, tag="pause"):
+    """a spectator that pauses for about as long as the host buffers for it (128 frames) and then
+    comes back: the host's Disconnected for it must be the last event for that address"""
+    out = []
+    for i in range(n):
+        tick = rng.choice([16, 16, 20])
+        s = Scen("%s_%d" % (tag, i), players=2, window=rng.choice([2, 8]), lat=rng.choice([5, 10, 30]), seed=rng.randrange(1 << 30), inputrun=2, timeout=rng.choice([5000, 20000]), notify=rng.choice([300, 500, 1500]))
+        s.p2p(1, [0]); s.p2p(2, [1]); s.spec(9, 1, 2)
+        s.ticks(1, 0, 7000, tick); s.ticks(2, 5, 7000, tick)
+        t0 = rng.randrange(600, 2000)
+        pause = 128 * tick + rng.randrange(-120, 200)
+        s.ticks(9, 7, 7000, 16, skip=[(t0, t0 + pause)])
+        out.append(s)
+    return out
